@@ -142,6 +142,8 @@ class FsSeam:
     def new_path(self, ext):
         self.n += 1
         # (file names are case-sensitive: every third name has capitals)
+        if ext in ('h5', 'hdf5') and self.n % 5 == 0:
+            return os.path.join(self.dir, f'p{self.n}.pkl.{ext}')      # (a name may mention another format: the ending decides)
         return os.path.join(self.dir, (f'p{self.n}.{ext}' if self.n % 3 else f'SessB{self.n}.{ext}'))
 
     def rel(self, path):
@@ -149,7 +151,7 @@ class FsSeam:
             return '<handle>'
         b = os.path.basename(path)
         import re
-        if re.fullmatch(r'(p|crash)\d+(\.\w+)?', b):
+        if re.fullmatch(r'(p|SessB|crash)\d+(\.\w+)*', b):
             return b
         # a name the library chose itself (a scratch file next to the target ...): such names may hold the process id or a
         # random suffix, so the log refers to them by order of first appearance
